@@ -8,6 +8,8 @@ Models of the decision/glue logic of the v1 classifiers and the CLI:
 Codecs (tar, gzip, gob), the normalisers, go-diff and the OS are parameters.
 Core Lean only.
 -/
+import LC.Model.Utf8
+
 namespace LC.V1Glue
 
 /-! ### findAllIndex -/
@@ -46,6 +48,45 @@ def exactRange (toks : List Tok) (a b : Nat) : Nat × Nat :=
       let start' := if t.offset = a then i else start
       if t.offset ≥ b then (start', stop) else go ts (i + 1) start' i
   go toks 0 0 0
+
+/-! ### the occurrence without the white space at its ends (findMatches, as repaired) -/
+
+/-- `len(s) - len(strings.TrimLeftFunc(s, unicode.IsSpace))`: bytes of leading white space -/
+def leadSpace (isSpace : Nat → Bool) : Nat → List UInt8 → Nat
+  | 0, _ => 0
+  | fuel + 1, s =>
+    match s with
+    | [] => 0
+    | _ :: _ =>
+      let rw := LC.Utf8.decodeRune s
+      let size := max 1 rw.2
+      if isSpace rw.1 then size + leadSpace isSpace fuel (s.drop size) else 0
+
+/-- end (byte offset within `s`) of the last rune of `s` that is not white space, scanning from
+`i`; `last` = the value so far. `len(strings.TrimRightFunc(s, unicode.IsSpace))`. -/
+def lastNonSpaceEnd (isSpace : Nat → Bool) : Nat → List UInt8 → Nat → Nat → Nat
+  | 0, _, _, last => last
+  | fuel + 1, s, i, last =>
+    match s with
+    | [] => last
+    | _ :: _ =>
+      let rw := LC.Utf8.decodeRune s
+      let size := max 1 rw.2
+      lastNonSpaceEnd isSpace fuel (s.drop size) (i + size) (if isSpace rw.1 then last else i + size)
+
+/-- `(lo, hi)`: the occurrence `[a, b)` of `s` without the white space at its ends; `[a, b)` itself
+when it is white space only -/
+def trimOcc (isSpace : Nat → Bool) (s : List UInt8) (a b : Nat) : Nat × Nat :=
+  let occ := (s.drop a).take (b - a)
+  let lo := a + leadSpace isSpace (occ.length + 1) occ
+  let hi := a + lastNonSpaceEnd isSpace (occ.length + 1) occ 0 0
+  if lo ≥ hi then (a, b) else (lo, hi)
+
+/-- the byte range reported for an exact occurrence `[a, b)`: `tr` is what `TargetRange` gives for
+the token range of the trimmed occurrence; when that is exactly the trimmed occurrence, the match
+is the occurrence itself, white space at its ends included -/
+def exactBytes (a b : Nat) (lohi tr : Nat × Nat) : Nat × Nat :=
+  if tr = lohi then (a, b) else tr
 
 /-! ### nearestMatch exact shortcut -/
 
